@@ -25,6 +25,7 @@ def plan(pid, tier, seed):
         mc = [dict(mc[0], sample=1500)]
     return {
         "harness": "callgraph",
+        "needs_coca": True,
         "mc": mc,
         "gen": [],
         "rand": 400 if quick else 20000,
